@@ -57,7 +57,7 @@ fn plan(seed: u64, k: usize) -> Plan {
     let mut rng = StdRng::seed_from_u64(seed ^ 0x1a7e20);
     let sizes = [0u64, 1, 100, 1199, 1200, 5000, 65_536, 200_000];
     let n = rng.random_range(1..4);
-    Plan {
+    let p = Plan {
         seed,
         role: if k % 2 == 0 { "s2n_server".into() } else { "s2n_client".into() },
         streams: (0..n).map(|_| (sizes[rng.random_range(0..sizes.len())], sizes[rng.random_range(0..sizes.len())])).collect(),
@@ -75,7 +75,13 @@ fn plan(seed: u64, k: usize) -> Plan {
         quiche_cid_len: [8usize, 16, 20, 20, 4][rng.random_range(0..5)],
         quiche_recv_udp_payload: [1200usize, 1200, 1350, 65527][rng.random_range(0..4)],
         quiche_issue_cid: rng.random_bool(0.6),
-    }
+    };
+    // quiche 0.29 answers a REPEATED RETIRE_CONNECTION_ID for an id it has already dropped with OutOfIdentifiers once a single
+    // source id is left (cid.rs `remove` checks the length before the sequence number); s2n-quic retires the handshake id when
+    // the spare one arrives and, like any sender, repeats the frame after a (spurious) loss.  The spare id is therefore only
+    // issued on a network that neither drops nor reorders.
+    let p = Plan { quiche_issue_cid: p.quiche_issue_cid && p.drop_permille == 0 && p.reorder_permille == 0, ..p };
+    p
 }
 
 // ------------------------------------------------------------------------------------------------ relay
